@@ -170,6 +170,11 @@ def build(S):
         from . import topokit as tk
 
         C01_init.add(S)
+        # the last y-face row of a region is overwritten with its upper neighbour's first row: the points
+        # stay points of the same flux surface only if R and Z are taken from the SAME row of the SAME array
+        S.under_contract("hypnotoad.core.mesh:MeshRegion.getRZBoundary")
+        for kind in ("other", "self", "target"):
+            S.contract("getRZBoundary[upper neighbour: %s]" % kind, "hypnotoad.core.mesh:MeshRegion.getRZBoundary", C08.make_rz_boundary_run(kind), shape="nx=ny=2, all values symbolic")
         # the only points allowed off their flux surface are the corners pinned to an X-point:
         # the pin lists name the right radial edge (the X-point's own separatrix) in every topology
         S.under_contract("hypnotoad.cases.tokamak:TokamakEquilibrium.describeDoubleNull", "hypnotoad.cases.tokamak:TokamakEquilibrium.describeSingleNull")
